@@ -16,6 +16,9 @@ Line-protocol front end of the C16 model (requests after the leading `C16` field
        keysof,r  mitems,r  lfilter,r,ne|eq|all|nothing,v  leach,r  leachacc,r,acc  lchunk,r,n
      tag = `map` / `bytes` when the step is one on which today's code is known to leave the
      reference semantics (see `Risor.C16.findingTag`), `-` otherwise
+
+  sortspec  <v,v,…>  <v,v,…>     is the second list the reference sort (`Spec.isSortOf`) of the
+     first, a list of numbers?   reply: ok <TAB> sorted | not-the-sort;expected=…
 -/
 namespace Risor.C16
 open Risor.Util
@@ -260,6 +263,18 @@ def handle : List String → String
     | some h, some ops => "ok\t" ++ renderState h ++ "\t" ++ "|".intercalate (runSeq h h ops)
     | none, _ => "error\tbad-objects"
     | _, none => "error\tbad-ops"
+  | ["sortspec", xs, ys] =>
+    -- is `ys` the reference sort (`Spec.isSortOf`: ascending by exact value, same items per
+    -- value in input order) of the list of numbers `xs`?
+    let xs := if xs = "-" then "" else xs
+    let ys := if ys = "-" then "" else ys
+    match (splitNonEmpty xs ",").mapM parseVal, (splitNonEmpty ys ",").mapM parseVal with
+    | some xs, some ys =>
+      if xs.all isNum && ys.all isNum then
+        "ok\t" ++ (if Spec.isSortOf xs ys then "sorted" else
+          "not-the-sort;expected=" ++ ",".intercalate ((Impl.sort keyCmp xs).1.map (renderVal { objs := [], arrs := [] } 0)))
+      else "error\tnot-numbers"
+    | _, _ => "error\tbad-values"
   | ["runes", s] =>
     match fromHex s with
     | some bs => ",".intercalate ((runes bs).map toString)
